@@ -4,6 +4,7 @@ package main
 // the trusted base and is listed in evidence when used.
 
 import (
+	"time"
 	"sync"
 	"fmt"
 	"go/token"
@@ -422,6 +423,16 @@ func init() {
 	reg("(time.Duration).String", func(ex *Exec, fn *ssa.Function, a []Value) Value { return UF("dur.String", SSeq, a[0].(*Term)) })
 	reg("time.Parse", func(ex *Exec, fn *ssa.Function, a []Value) Value {
 		l, s := a[0].(*Term), a[1].(*Term)
+		if l.IsLit() && s.IsLit() {
+			// concrete layout and value: decided exactly by the host library
+			tt, err := time.Parse(l.S, s.S)
+			if err != nil {
+				return Tuple{zeroValue(fn.Signature.Results().At(0).Type()), errorIface(ex, "time.Parse")}
+			}
+			ns := new(big.Int).Mul(big.NewInt(tt.Unix()), big.NewInt(1000000000))
+			ns.Add(ns, big.NewInt(int64(tt.Nanosecond())))
+			return Tuple{TimeV{NS: BigLit(ns)}, Iface{}}
+		}
 		ok := UF("time.Parse.ok", SBool, l, s)
 		if ex.Branch(ok) {
 			ns := UF("time.Parse.ns", SInt, l, s)
@@ -453,6 +464,9 @@ func init() {
 			return Tuple{v, Iface{}}
 		}
 		if s.Op == "uf" && s.Name == "uf_"+mangle("b64enc") {
+			if bs, ok := seqBytes(s.Args[0]); ok && len(bs) > 0 {
+				return Tuple{ex.newByteSlice(bs), Iface{}} // decode(encode(x)) = x, as a fresh mutable slice
+			}
 			return Tuple{BytesV{T: s.Args[0]}, Iface{}} // decode(encode(x)) = x
 		}
 		ok := UF("b64ok", SBool, s)
